@@ -10,6 +10,7 @@ of its graph becomes an input program (content class per block, level, fragmenta
 materialised and run on the real compressor; every emitted frame is checked; the recorded block decisions are validated
 against Trace_FrameCompressor.  Seeded random input programs over boundary lengths extend this to real sizes.
 """
+import json
 from ..common import *
 from .. import enclib, fdlib
 
@@ -19,6 +20,17 @@ def check(ctx, pid):
     q = ctx.quick
     enclib.model_and_replay(ctx, stride=(3 if q else 1), max_blocks=2 if q else 3)
     enclib.random_inputs(ctx, 150 if q else 2500)
+    if pid in ("C15", "C02"):
+        # the built-in match finder at other geometries (windows that are not powers of two, matches just inside the window)
+        rep = ctx.path("encgeom.json")
+        vh(ctx, ["encgeom", ctx.seed, ctx.tier, rep], timeout=7200)
+        gj = json.load(open(rep))
+        ctx.evaluations += gj["frames"]
+        ctx.cov["other_matcher_geometries"] = {k: gj[k] for k in ("frames", "mismatches", "frames_with_offsets_above_7_8_of_the_window", "matcher_window_and_declared_window")}
+        enclib._drift_note(ctx, gj, "matcher geometries")
+        enclib._report(ctx, gj, "geom")
+        if gj["frames_with_offsets_above_7_8_of_the_window"] < gj["frames"] // 3:
+            raise ToolError("vacuous geometry runs: few matches near the window")
     if pid == "C08":
         # decoder side: drains through every path in wrapped and unwrapped ring states, checksums compared with an independent XXH64
         params = dict(ReadSizes=[1, 1023, 5000], ByteBudgets=[1025], BlockBudgets=[1], Offers=[4000], Targets=[1, 5000],
